@@ -35,6 +35,9 @@ P = {
     "C03.c": "recursion over user-shaped cyclic graphs (_tx_inh_by, rule references) carries a visited set covering the recursive argument",
     "C03.d": "textx_isinstance decision table (OBJECT / instance / equal fqn / any inheritor)",
     "C03.e": "NUMBER/BASETYPE inherits lists in metamodel.py equal the ordered choices in lang.py",
+    "C03.f": "abstract-rule result selection: the first referenced rule whose kind is not 'match' (guard evaluated over the three kinds)",
+    "C03.g": "the fixpoint's change flag is sticky within a pass (only set to True) and reset once at the top of each pass",
+    "C03.h": "cycle guards are keyed by identity and a visited hit skips the element instead of ending the search",
   },
   declined="that the fixpoint computes the documented kinds for every reference graph; which alternative matched at run time",
   technique="kind-discipline lint over all RULE_*/MULT_* comparisons + control-dependence inside the fixpoint loop + table agreement"),
@@ -64,6 +67,9 @@ P = {
   decided={
     "C07.a": "PlainName.__call__ cardinality table: 0 -> None, 1 -> the object, >=2 -> TextXSemanticError; selector conjoins name equality and textx_isinstance; search root is get_model(obj)",
     "C07.b": "resolve_one_step: builtins consulted only after the provider returned None, accepted only under textx_isinstance; still None -> UNKNOWN_OBJ_ERROR; Postponed never stored",
+    "C03.c": "(shared with C03) the type-conformance test recurses over inheritors with a cycle guard",
+    "C03.d": "(shared with C03) textx_isinstance decision table",
+    "C03.h": "(shared with C03) the cycle guard is identity-keyed and skips, never ends, the search",
   },
   declined="correctness of the search over all models and type hierarchies",
   technique="decision-table extraction with a cardinality domain {0,1,>=2}"),
